@@ -219,6 +219,9 @@ def check(tier, replay=None):
                        "the property is read as 'every self-referential macro reached from an invocation is rejected'")
     if tier == "thorough" and not replay:
         tie_b(r, rng, cases, real, listed, d)
+    elif not replay:
+        # quick tier: only the six programs whose acceptance rustc alone decides (attributes on relation declarations)
+        tie_b(r, rng, cases, real, listed, d, pick=rel_attr_cases())
     d.conclude(proof, "static checks of the macro front end")
     return r.finish(TRUSTED)
 
@@ -236,10 +239,34 @@ def rs_file(c):
     return pre + f"{c['kind']}! {{\n{body}\n}}\nfn main() {{\n   let mut p = {name}::default();\n   p.run();\n   println!(\"ran\");\n}}\n"
 
 
-def tie_b(r, rng, cases, real, listed, d):
+REL_ATTR_BASE = """   {a0}relation edge(i32, i32);
+   {a1}relation path(i32, i32);
+   {a2}lattice best(i32, ascent::Dual<i32>);
+   edge(1, 2); edge(2, 3);
+   path(x, y) <-- edge(x, y);
+   path(x, z) <-- edge(x, y), path(y, z);
+   best(x, ascent::Dual(*y)) <-- path(x, y);"""
+
+
+def rel_attr_cases():
+    """attributes on relation / lattice declarations: `ds` is consumed by the macro, everything else is FORWARDED to the generated struct field, where rustc
+    rejects what it does not know - whatever the shape of the attribute's path.  Only rustc can decide these (the in-process pipeline answers ok either way)."""
+    def mk(i, a0, a1, a2, want, variant):
+        return {"id": f"relattr{i}", "kind": "ascent", "text": REL_ATTR_BASE.format(a0=a0, a1=a1, a2=a2), "want": want, "class": "unknown-relation-attribute",
+                "variant": variant, "expect": "err" if want == "fail" else "ok", "faithful": True, "summary": "-", "pos": "relation"}
+    return [mk(0, "", "", "", "build", "none"),
+            mk(1, "#[doc = \"edges\"] ", "#[allow(dead_code)] ", "", "build", "known-attributes"),
+            mk(2, "#[bogus_index_hint] ", "", "", "fail", "single-ident"),
+            mk(3, "", "#[bogus::index_hint(hash)] ", "", "fail", "path-with-arguments"),
+            mk(4, "", "", "#[no_such_tool::keep_sorted] ", "fail", "path-on-lattice"),
+            mk(5, "#[rustfmt::skip] #[bogus::a::b] ", "", "", "fail", "three-segment-path")]
+
+
+def tie_b(r, rng, cases, real, listed, d, pick=None):
     """compile a sample with rustc: one throw-away crate, one binary per program"""
     rb = rng.fork("tieb")
-    pick = []
+    if pick is not None: return tie_b_build(r, pick, real, listed, d, "tie_b_relation_attributes")
+    pick = rel_attr_cases()
     good = [c for c in cases if c["class"] in ("wellformed",) and c["kind"] != "ascent_source"]
     pick += [dict(c, want="build") for c in good[:40]] + [dict(c, want="build") for c in cases if c["id"] == "k_f16"]
     pick += [dict(c, want="build") for c in cases if c["variant"] in ("private-macro-names", "private-name-in-clause-condition")][:8]
@@ -252,6 +279,10 @@ def tie_b(r, rng, cases, real, listed, d):
         unf = [c for c in xs if not c["faithful"]]
         for c in (unf[:3] + [rb.choice(xs) for _ in range(3)]): pick.append(dict(c, want="fail"))
     pick += [dict(c, want="fail") for c in cases if c["class"] == "malformed-condition"][:6]
+    return tie_b_build(r, pick, real, listed, d, "tie_b")
+
+
+def tie_b_build(r, pick, real, listed, d, covkey):
     if os.path.exists(TB): shutil.rmtree(TB)
     os.makedirs(os.path.join(TB, "src", "bin"))
     names = {}
@@ -279,7 +310,7 @@ incremental = false
     t0 = time.time()
     p = subprocess.run(["cargo", "build", "--offline", "--keep-going", "--bins", "--message-format=json", "-j", str(core.NCPU)], cwd=TB, env=e,
                        stdout=subprocess.PIPE, stderr=subprocess.PIPE, text=True, timeout=7200)
-    r.cov["tie_b_build_s"] = round(time.time() - t0, 1)
+    r.cov[covkey + "_build_s"] = round(time.time() - t0, 1)
     built, diags = {}, collections.defaultdict(list)
     for line in p.stdout.splitlines():
         if not line.startswith("{"): continue
@@ -319,6 +350,6 @@ incremental = false
                 else: d.failing.append({"input": text, "impl": "rustc: " + "; ".join(m for m, _ in diags[nm][:2]), "model": None,
                                         "why": "rejected, but no diagnostic points into the program text", "case": c})
         d.evals += 1
-    r.cov["tie_b"] = dict(sorted(stats.items()))
-    r.cov["tie_b_programs"] = len(pick)
+    r.cov[covkey] = dict(sorted(stats.items()))
+    r.cov[covkey + "_programs"] = len(pick)
     shutil.rmtree(TB, ignore_errors=True)
